@@ -2,8 +2,6 @@ package storea
 
 import (
 	"bytes"
-	"fmt"
-	"sort"
 	"testing"
 
 	"github.com/pokt-network/pocket-core/store/cachekv"
@@ -195,7 +193,7 @@ func TestC02(t *testing.T) {
 			switch {
 			case len(p) == 0:
 				c.Label("prefix-empty")
-			case len(bytes.TrimRight(p, "\xff")) == 0:
+			case c05AllFF(p):
 				c.Label("prefix-all-ff")
 				c.Label("prefix-ends-ff")
 			case p[len(p)-1] == 0xFF:
@@ -351,6 +349,3 @@ func TestC02(t *testing.T) {
 			})
 		})
 }
-
-var _ = fmt.Sprintf
-var _ = sort.Strings
